@@ -218,6 +218,53 @@ def limit_chunk(items):
     return out
 
 
+def keytable_family(ck):
+    """(f) wide sets whose members differ only in data that ends up as a BINARY key of an internal table (the compiler's literal pool: string bytes that start with
+    the same bytes / contain NUL; the hash module's per-scan digest cache: (offset, length) pairs): each rule's verdict is computed independently (hashlib / naive search)"""
+    import hashlib, zlib
+    w = yv.get_worker("plain")
+    n = 0
+    bufs = [bytes((i * 7 + 3) & 0xff for i in range(64)), b"abcdefgh" * 8, bytes(64)]
+    rules, exp = [], {}
+    for fn, ref in (("md5", lambda d: hashlib.md5(d).hexdigest()), ("sha1", lambda d: hashlib.sha1(d).hexdigest()), ("sha256", lambda d: hashlib.sha256(d).hexdigest())):
+        for off in (0, 1, 256 - 250):
+            for k in range(1, 41):
+                name = "h_%s_%d_%d" % (fn, off, k)
+                rules.append('rule %s { condition: hash.%s(%d, %d) == "%s" }' % (name, fn, off, k, ref(bufs[0][off:off + k])))
+                exp[name] = [ref(b[off:off + k]) == ref(bufs[0][off:off + k]) for b in bufs]
+    for order in (rules, rules[::-1]):
+        err, tr, rcs = compile_and_trace(w, [("-", 'import "hash"\n' + "\n".join(order))], bufs)
+        if err is not None:
+            ck.violation("C05:set-does-not-compile:digest-cache-family", dict(errors=err)); break
+        for name, e in exp.items():
+            n += len(bufs)
+            got = [json.loads(x)[0] == "m" for x in tr.get("default:" + name, [])]
+            if got != e:
+                ck.violation("C05:result-depends-on-company:digest-of-another-range", dict(rule=name, expected=e, together=got, note="alone the rule is true on the first buffer; among %d rules calling the same function on other ranges it is not" % len(rules)))
+                break
+    # literal pool: 1200 four-byte hex strings and 1200 text strings that all start with a NUL byte
+    pats = [bytes([0, i >> 8, i & 0xff, 0x7f]) for i in range(1200)]
+    present = [p_ for i, p_ in enumerate(pats) if i % 3 == 0]
+    buf = b"\xff\xff".join(present) + b"\xff"
+    for kind in ("hex", "text"):
+        def decl(p_): return "{ %s }" % p_.hex() if kind == "hex" else '"%s"' % "".join("\\x%02x" % c for c in p_)
+        for order in (list(range(1200)), list(range(1199, -1, -1))):
+            src = "\n".join("rule z%d { strings: $a = %s condition: $a }" % (i, decl(pats[i])) for i in order)
+            err, tr, rcs = compile_and_trace(w, [("-", src)], [buf])
+            if err is not None:
+                ck.violation("C05:set-does-not-compile:literal-pool-family", dict(errors=err)); break
+            for i in range(1200):
+                n += 1
+                got = json.loads(tr["default:z%d" % i][0])[0] == "m"
+                if got != (pats[i] in buf):
+                    ck.violation("C05:result-depends-on-company:string-with-nul-prefix:%s" % kind, dict(rule="z%d" % i, string=decl(pats[i]), expected=pats[i] in buf, together=got,
+                                                                                                     note="1200 strings of equal length that start with a NUL byte, compiled together"))
+                    break
+    yv.drop_worker("plain")
+    ck.cov["evaluations"] += n
+    ck.sub("table-keys", evaluations=n, note="360 digest rules (3 functions x 3 offsets x 40 lengths) and 2 x 1200 NUL-prefixed strings, both orders")
+
+
 def distribution_cases():
     """a 4-rule namespace text cut at rule boundaries into <= 3 add calls; and nested includes"""
     P = {r["name"]: r for r in pool()}
@@ -322,6 +369,7 @@ def main():
             nlim += 1; ck.cov["evaluations"] += len(LIMIT_BUFS)
             if sig: ck.violation(sig, det)
     ck.sub("match-limit-company", ordered_rule_sets=nlim, build="scaled limits (8 matches per string)")
+    keytable_family(ck)
     # ---- (c) automaton sub-space
     strs = ["".join(t) for L in (3, 4, 5) for t in itertools.product("ab", repeat=L)]
     asets = [(s,) for s in strs]
